@@ -193,6 +193,13 @@ impl<'a, 'b, Version, Purpose> GenericParser<'a, 'b, Version, Purpose> {
       }
     }
 
+    //validators registered without an accompanying claim (extend_validation_claims) have to run as well
+    for (key, validator) in &self.claim_validators {
+      if !self.claims.contains_key(key) {
+        validator(key, &json[key])?;
+      }
+    }
+
     Ok(json)
   }
 }
